@@ -44,6 +44,7 @@ func corpus(c *ctx) {
 	// the size witnesses (C07-2/3/4)
 	runAdv(c, "tablepos", 25551)
 	runAdv(c, "loop_numfor", 140000)
+	runAdv(c, "loop_numfor", 131071)
 	runAdv(c, "loop_repeat", 140000)
 	runAdv(c, "upvalues", 290)
 }
